@@ -1114,3 +1114,44 @@ def program_c11(rnd):
         mod.append(classify(e, j))
     mod.append(Print(Str("seen"), Var("seen")))
     return Module(mod)
+
+
+# ======================================================================================================
+# C14: special values as operands of ==, list members and map keys (the places where the two value
+# representations implement equality and hashing separately)
+def program_c14_keys(rnd):
+    # no fractional values here: Lang.tla carries a non-integer as one abstract numeral and cannot compare it
+    import copy
+    SPECIAL = [Bin("/", Num(0), Num(0)), Bin("*", Num(0), Num(-1)), Num(0), Bin("/", Num(1), Num(0)), Bin("/", Num(-1), Num(0)),
+               Num(1), Num(-1), Str("a"), Str(""), Nil(), Bool(True), Bool(False),
+               Bin("-", Bin("/", Num(1), Num(0)), Bin("/", Num(1), Num(0))), Bin("*", Num(-1), Num(0)), Num(2)]
+    mod = []
+    n = rnd.randint(3, 6)
+    names = []
+    for i in range(n):
+        mod.append(Let(f"v{i}", copy.deepcopy(rnd.choice(SPECIAL))))
+        names.append(f"v{i}")
+    pick = lambda: Var(rnd.choice(names))
+    mod.append(Let("l", List([pick() for _ in range(rnd.randint(1, 4))])))
+    mod.append(Let("t", Tuple([pick() for _ in range(rnd.randint(2, 3))])))
+    mod.append(Let("m", MapLit([])))
+    k = 0
+    for _ in range(rnd.randint(6, 14)):
+        k += 1
+        c = rnd.choice(["eq", "ne", "lhas", "lindex", "thas", "tindex", "mset", "mget", "mhas", "mremove", "minsert", "miset", "self"])
+        a, b = pick(), pick()
+        if c == "eq": e = Bin("==", a, b)
+        elif c == "ne": e = Bin("!=", a, b)
+        elif c == "self": e = Bin("==", a, copy.deepcopy(a))
+        elif c == "lhas": e = Invoke(Var("l"), "has", [a])
+        elif c == "lindex": e = Invoke(Var("l"), "index", [a])
+        elif c == "thas": e = Invoke(Var("t"), "has", [a])
+        elif c == "tindex": e = Invoke(Var("t"), "index", [a])
+        elif c == "mset": e = Invoke(Var("m"), "set", [a, Num(k)])
+        elif c == "miset": e = IndexSet(Var("m"), a, Num(k))
+        elif c == "minsert": e = Invoke(Var("m"), "insert", [a, Num(k)])
+        elif c == "mget": e = Invoke(Var("m"), "get", [a])
+        elif c == "mhas": e = Invoke(Var("m"), "has", [a])
+        else: e = Invoke(Var("m"), "remove", [a])
+        mod.append(classify([Print(Str(f"#{k} {c}"), e, Invoke(Var("m"), "len", []))], k))
+    return Module(mod)
